@@ -82,7 +82,7 @@ def make_units(seed, n, wd):
         f.write(stext)
     texts[si] = stext
     units.append({"gidx": si, "gpath": gp, "code_path": os.path.join(wd, "g%d.rs" % si), "exports": [("Small", False)], "ctx": False})
-    for rep in range(40):
+    for rep in range(120):
         for s_ in ("bax", "baq", "ban", "bcdx", "bcx", "b"):
             cases.append(("c%d" % k, si, "Small", 2, 50000000, s_))
             k += 1
@@ -262,7 +262,7 @@ def check_C20(tier, seed):
             miri_leg(out, wd, units, cases, seed)
     finally:
         shutil.rmtree(wd, ignore_errors=True)
-    rule = ("grammars of the memo/leftrec/trace/core/userfn/unicode/charclass/mix profiles x 16-30 inputs per exported rule (each input placed at a varying offset of a reused buffer), 4 heavy parses (0.7 MB, memoized) and 240 copies of a cache-sensitive small grammar; one fixed PrettyParseError rendered before and after all parses of every driver process; (a) sequential baseline vs a shuffled sequential history with repeats and other parsers interleaved; "
+    rule = ("grammars of the memo/leftrec/trace/core/userfn/unicode/charclass/mix profiles x 16-30 inputs per exported rule (each input placed at a varying offset of a reused buffer), 4 heavy parses (0.7 MB, memoized) and 720 copies of a cache-sensitive small grammar; one fixed PrettyParseError rendered before and after all parses of every driver process; (a) sequential baseline vs a shuffled sequential history with repeats and other parsers interleaved; "
             "(b) the same multiset (x2) randomly assigned to 2-32 threads started at a barrier with yields/sleeps injected from tracer callbacks; result, user-function calls and the full rule entry/exit sequence of every parse must equal the baseline. "
             "(c) four recursive grammars x inputs nested 1..1300 (thorough 2600) levels deep (ladder) plus 16 (thorough 40) deeper ones, each compared with its fresh-process result in ascending / deepest-first / shuffled histories and on 4 and 8 threads (2 GiB stacks). thorough adds a ThreadSanitizer build and Miri (-Zmiri-many-seeds). evaluations = parses compared with the baseline; non-trivial = the parse progressed beyond offset 0.")
     return out.finish(evaluations, nontriv, rule, floor=50)
